@@ -209,6 +209,49 @@ func twoWritersBody(name string, backpressure bool) func() {
 	}
 }
 
+// replaceBackBody: a collection with no-duplicates, a lossy subscriber that holds item a, and a writer that removes a,
+// creates it again with another value and then writes the ORIGINAL value back. However the removal and the creation
+// reach the subscriber (one after the other, or folded into one replacement), what it holds afterwards is the new
+// value - so the write back to the original one is news, and the folded view ends on the store's state.
+func replaceBackBody(name string, updatesOnly bool) func() {
+	return func() {
+		col := resource.NewCollection(resource.WithNoDuplicates(), resource.WithInitialRecord("a", msg(0)))
+		ctx, cancel := context.WithCancel(context.Background())
+		defer cancel()
+		ch := col.Pull(ctx, resource.WithUpdatesOnly(updatesOnly))
+		view := map[string]string{}
+		if updatesOnly {
+			view["a"] = "0" // what it knows from elsewhere
+		}
+		var received []ev
+		go func() {
+			for c := range ch {
+				e := ev{c.ChangeType, c.Id, show(c.OldValue), show(c.NewValue)}
+				received = append(received, e)
+				fold(view, e)
+			}
+		}()
+		var wg sync.WaitGroup
+		wg.Add(1)
+		go func() {
+			defer wg.Done()
+			col.Delete("a")
+			col.Add("a", msg(1))
+			col.Update("a", msg(0))
+		}()
+		wg.Wait()
+		verifrt.WaitIdle()
+		final := map[string]string{}
+		if m, ok := col.Get("a"); ok {
+			final["a"] = show(m)
+		}
+		if viewStr(view) != viewStr(final) {
+			verifrt.Logf("FAIL fold %s ## folding the received events gives {%s}, the store holds {%s}; received %v", name, viewStr(view), viewStr(final), received)
+		}
+		verifrt.Logf("OUT received=%v", received)
+	}
+}
+
 // ---- harness B: Value
 func valueBody(name string, n int, backpressure, lateConsumer bool) func() {
 	return func() {
@@ -586,6 +629,10 @@ func eventSeqs(n int, legalOnly bool) [][]ev {
 
 func main() {
 	h := hx.New("C09")
+	for _, uo := range []bool{false, true} {
+		name := fmt.Sprintf("coll(no-duplicates)/delete a; add a=1; update a=0 (the value it had)/lossy, updates_only=%v", uo)
+		h.Sched(name, -1, -1, replaceBackBody(name, uo), hx.StdOracle)
+	}
 	for _, bp := range []bool{false, true} {
 		name := fmt.Sprintf("coll/update a || delete a/backpressure=%v", bp)
 		h.Sched(name, -1, -1, twoWritersBody(name, bp), hx.StdOracle)
